@@ -38,7 +38,10 @@ def run(ctx):
     prog.adt(ENF)
     pairs = (('add_node', 'remove_node', 'can_accept_node'), ('add_ipv4', 'remove_ipv4', 'can_accept_ipv4'))
     for add, rem, can in pairs:
-        ab, rb, cb = prog.body(ENF + '::' + add), prog.body(ENF + '::' + rem), prog.body(ENF + '::' + can)
+        # same-file helpers are spliced in (a take_slot / release_slot / caps helper changes nothing for these rules)
+        ab = prog.inl(ENF + '::' + add, keep=r'::can_accept_')
+        rb = prog.inl(ENF + '::' + rem)
+        cb = prog.inl(ENF + '::' + can)
         for b in (ab, rb, cb):
             ctx.touch(b, len(b.calls()))
         # ---- 1. same tables
@@ -106,22 +109,41 @@ def run(ctx):
     allowed_roots = set(ENF + '::' + n for pr in pairs for n in pr[:2]) | {ENF + '::new', ENF + '::with_config', ENF + '::with_capacity'}
     counter_fields = set()
     for add, rem, can in pairs:
-        counter_fields |= set(tables(prog.body(ENF + '::' + add), r'LruCache::<.*>::put$'))
+        counter_fields |= set(tables(prog.inl(ENF + '::' + add, keep=r'::can_accept_'), r'LruCache::<.*>::put$'))
     nmut = 0
+
+    def owner_ok(root):
+        return root in allowed_roots or prog.owner_roots(root, stop=allowed_roots) <= allowed_roots
     for b in prog.bodies.containing(json.dumps(ENF)):
         for c in b.calls(MUT):
             e = b.expr(c.args[0]).strip()
             if not (e.k == 'field' and e.b.startswith(ENF + '::') and e.b.rsplit('::', 1)[-1] in counter_fields):
                 continue
-            nmut += 1
-            okw = b.root in allowed_roots
-            if okw:
+            if owner_ok(b.root):
                 continue
             n = sum(1 for o in ctx.obls if o.key.startswith('counter-writer:%s' % b.root))
             ctx.ob('PAIR', 'counter-writer:%s#%d' % (b.root, n), False, c.where(),
                    '%s changes the %s counter in %s: counters may only move in the add / remove pairs' % (c.short(), e.b.rsplit('::', 1)[-1], b.root), entry=b.root)
+    # a counter table handed out by `&mut` (to a helper that puts / pops) counts as a write of that table by the borrower
+    for fld in sorted(counter_fields):
+        for wb, bi, kind, th in L.field_writes(prog, ENF, fld):
+            if kind not in ('mut-borrow', 'assign', 'call-dest'):
+                continue
+            if owner_ok(wb.root):
+                continue
+            n = sum(1 for o in ctx.obls if o.key.startswith('counter-writer:%s' % wb.root))
+            ctx.ob('PAIR', 'counter-writer:%s#%d' % (wb.root, n), False, wb.where(th.get('ln')),
+                   '%s takes `&mut %s` / assigns it: counters may only move in the add / remove pairs' % (wb.root, fld), entry=wb.root)
+    # how many counter updates the four routines perform (through their helpers)
+    for add, rem, can in pairs:
+        for fn in (add, rem):
+            ib = prog.inl(ENF + '::' + fn, keep=r'::can_accept_')
+            for c in ib.calls(MUT):
+                e = ib.expr(c.args[0]).strip()
+                if e.k == 'field' and e.b.startswith(ENF + '::') and e.b.rsplit('::', 1)[-1] in counter_fields:
+                    nmut += 1
     ctx.ob('PAIR', 'counter-writers-closed', nmut >= 16, 'src/security.rs',
-           '%d mutating calls on the %d counter tables, all inside add_node / remove_node / add_ipv4 / remove_ipv4 / constructors' % (nmut, len(counter_fields)))
+           '%d mutating calls on the %d counter tables, all inside add_node / remove_node / add_ipv4 / remove_ipv4 (and their private helpers) / constructors' % (nmut, len(counter_fields)))
     # unified dispatch
     for fn, v4, v6 in (('can_accept_unified', 'can_accept_ipv4', 'can_accept_node'), ('add_unified', 'add_ipv4', 'add_node'), ('remove_unified', 'remove_ipv4', 'remove_node')):
         b = prog.body(ENF + '::' + fn)
@@ -210,13 +232,32 @@ def _halved(b, lim):
     seen = set()
     st = lim.strip()
     # element of a tuple built on both arms of the hosting/VPN test: look at that element only
-    if st.k == 'field' and st.a.strip().k in ('local', 'let') and re.match(r'^(::)?\d+$', st.b.rsplit('::', 1)[-1] if '::' in st.b else st.b):
-        idx = int(st.b.rsplit('::', 1)[-1])
-        tl = st.a.strip().a
+    base = st.a.strip() if st.k == 'field' else None
+    while base is not None and base.k in ('let',):
+        base = base.c.strip() if base.c.strip().k in ('local', 'let') else base
+        break
+    if st.k == 'field' and st.a.strip().k in ('local', 'let'):
+        fname = st.b.rsplit('::', 1)[-1]
         elems = []
-        for d in b.defs().get(tl, []):
-            if d[0] == 's' and d[3]['r']['k'] == 'agg' and d[3]['r'].get('ak') == 'tuple' and idx < len(d[3]['r']['ops']):
-                elems.append(b.expr(d[3]['r']['ops'][idx]))
+        # follow plain copies of the aggregate local (inlined helper returns, moves)
+        todo = [st.a.strip().a]
+        seen_l = set()
+        while todo:
+            tl = todo.pop()
+            if tl in seen_l:
+                continue
+            seen_l.add(tl)
+            for d in b.defs().get(tl, []):
+                if d[0] != 's':
+                    continue
+                r = d[3]['r']
+                if r['k'] == 'agg':
+                    if r.get('ak') == 'tuple' and fname.isdigit() and int(fname) < len(r['ops']):
+                        elems.append(b.expr(r['ops'][int(fname)]))
+                    elif r.get('fields') and fname in r['fields']:
+                        elems.append(b.expr(r['ops'][r['fields'].index(fname)]))
+                elif r['k'] == 'use' and 'p' in r['o'] and len(r['o']['p']) == 1:
+                    todo.append(r['o']['p'][0])
         if elems:
             def halved_expr(e):
                 return any(x.k == 'call' and re.search(r'::max$', x.a) and any(y.k == 'bin' and y.a == 'Div' and y.c.const_value() == 2 for y in x.walk()) for x in e.walk())
